@@ -143,6 +143,8 @@ def _ema_time_weighted(arr: np.ndarray, times: np.ndarray, halflife: int) -> np.
     NaN values propagate the last valid EMA value forward.
     """
     out = np.zeros_like(arr, dtype="float64")
+    if len(arr) == 0:
+        return out
     if np.isnan(arr[0]):
         out[0] = np.nan
         residual = 0.0
